@@ -528,11 +528,74 @@ Definition c10_mech_mutex (case obs : sx) : bool :=
       end
   end.
 
+(* ---------------------------------------------------------------- mutex schedules executed in order *)
+(* case (5 shape (label ...)): a schedule of the mutex LTS; every label is one critical section or a
+   thread-local guard action, so executing the labels in order on the real MutexSink IS that schedule.
+   label: (0 e) merge | (4 e) guard new | (5 g e) guard set | (6 g) guard drop | (7) close on a clone.
+   Labels that are not enabled (dead guard) are skipped by both sides; a final close is appended. *)
+Definition dec_mlabel (x : sx) : mlabel :=
+  match sx_tag x with
+  | 0%Z => MMerge (dec_entry (sx_arg x 0))
+  | 4%Z => MGNew (dec_entry (sx_arg x 0))
+  | 5%Z => MGSet (sx_nat (sx_arg x 0)) (dec_entry (sx_arg x 1))
+  | 6%Z => MGDrop (sx_nat (sx_arg x 0))
+  | _ => MClose
+  end.
+Fixpoint mrun_skip (sh : shape) (s : mstate) (ls : list mlabel) : mstate :=
+  match ls with
+  | [] => s
+  | l :: r => match mstep sh s l with Some s' => mrun_skip sh s' r | None => mrun_skip sh s r end
+  end.
+Definition c10_mutex_seq (x : sx) : sx :=
+  let w := dec_shape (sx_arg x 0) in
+  let ls := map dec_mlabel (sx_list (sx_arg x 1)) ++ [MClose] in
+  let s := mrun_skip (w_sh w) (m_init (w_sh w)) ls in
+  L (map (fun c => enc_agg w (([], 0), c)) (m_closed s)).
+
+(* the promise, read off the schedule (Guards.v's history: a guard contributes the last value written to it
+   when it is dropped): thread_events already implements exactly that reading for one script, with
+   (7) read as an awaited flush, i.e. the end of an epoch *)
+Fixpoint mutex_seq_ops (evs : list (option entry)) : list op :=
+  match evs with
+  | [] => []
+  | Some e :: r => OMerge e :: mutex_seq_ops r
+  | None :: r => OFlush :: mutex_seq_ops r
+  end.
+Definition close_as_flush (x : sx) : sx := match sx_tag x with 7%Z => tagged 1 [] | _ => x end.
+(* guards still alive at the final close are never merged: cut the trailing drops thread_events appends *)
+Fixpoint script_events_no_final_drops (gs : list (option entry)) (script : list sx) : list (option entry) :=
+  match script with
+  | [] => []
+  | x :: r =>
+      match sx_tag x with
+      | 0%Z => Some (dec_entry (sx_arg x 0)) :: script_events_no_final_drops gs r
+      | 1%Z => None :: script_events_no_final_drops gs r
+      | 4%Z => script_events_no_final_drops (gs ++ [Some (dec_entry (sx_arg x 0))]) r
+      | 5%Z => let g := sx_nat (sx_arg x 0) in
+               match nth_error gs g with
+               | Some (Some _) => script_events_no_final_drops (set_nth gs g (Some (dec_entry (sx_arg x 1)))) r
+               | _ => script_events_no_final_drops gs r
+               end
+      | 6%Z => let g := sx_nat (sx_arg x 0) in
+               match nth_error gs g with
+               | Some (Some v) => Some v :: script_events_no_final_drops (set_nth gs g None) r
+               | _ => script_events_no_final_drops gs r
+               end
+      | _ => script_events_no_final_drops gs r
+      end
+  end.
+Definition c10_check_mutex_seq (case obs : sx) : bool :=
+  let w := dec_shape (sx_arg case 0) in
+  let script := map close_as_flush (sx_list (sx_arg case 1)) in
+  let ops := mutex_seq_ops (script_events_no_final_drops [] script) ++ [OFlush] in
+  check_closes w (complete_epochs ops) (sx_list obs).
+
 (* threaded cases (tags 2, 4) have no schedule-independent output: they are compared through c10_holds and
    c10_mech_observed only (suite "-thr") *)
 Definition c10_model (x : sx) : sx :=
   match sx_tag x with
   | 3%Z => c10_worker_det x
+  | 5%Z => c10_mutex_seq x
   | _ => c10_run_seq x
   end.
 
@@ -541,6 +604,7 @@ Definition c10_holds (x : sx) : sx :=
   | 2%Z => of_bool (c10_check_mutex (sx_nth x 0) (sx_nth x 1))
   | 4%Z => of_bool (c10_check_worker_thr (sx_nth x 0) (sx_nth x 1))
   | 3%Z => of_bool (c10_check_worker_det (sx_nth x 0) (sx_nth x 1))
+  | 5%Z => of_bool (c10_check_mutex_seq (sx_nth x 0) (sx_nth x 1))
   | _ => c10_check_seq x
   end.
 
